@@ -1293,7 +1293,7 @@ func (t *fnTrans) indexAddr(in *ssa.IndexAddr) {
 	case *types.Slice:
 		t.oblige("safe.index", "index:"+t.describe(in.X), in.Pos(), fmt.Sprintf("(and (<= 0 %s) (< %s (sl_len %s)))", i, i, x), "")
 		hv := t.elemHV(u.Elem())
-		idx := "(+ (sl_off " + x + ") " + i + ")"
+		idx := "(ix (sl_off " + x + ") " + i + ")"
 		t.vals[in] = []string{t.c.declare(t.c.fresh(in.Name()), "Int")}
 		t.locs[in] = &loc{kind: locElem, base: "(sl_arr " + x + ")", idx: idx, hv: hv, typ: u.Elem(), baseVal: in.X}
 		if _, isSt := t.isStruct(u.Elem()); isSt {
